@@ -574,7 +574,7 @@ Proof.
     match goal with |- match ?m ?w3 with _ => _ end => set (w3' := w3); assert (HF3 : relF m w3') end.
     { repeat fstep; try flem. }
     assert (Hp : prog w w3').
-    { assert (H2 : F w w2) by (eapply F_trans; eauto). destruct H2 as [H2 _].
+    { assert (H2 : F w w2) by exact (F_trans _ _ _ HF1 HF2). destruct H2 as [H2 _].
       unfold prog, input_left in *. subst w3'. sk_simpl. rewrite Eo in H2. cbn [List.length] in H2. lia. }
     unfold rel in HF3.
     match goal with |- match ?x with _ => _ end => destruct x as [a w4|[why|] w4] end; auto.
@@ -665,3 +665,67 @@ Proof.
   exfalso. apply orb_false_iff in E7. destruct E7 as [E7 E8].
   unfold live, live_b in Hl. rewrite E0, E1, E2, E3, E4, E5, E6, E7, E8 in Hl. discriminate.
 Qed.
+
+(* ---------- one iteration of run_fsm (including the application's stop / start) ---------- *)
+Definition stop_restart : world -> res unit :=
+  mdo _ <- rtr_stop; mdo _ <- dump 1; modify_sk (fun s => upd_st s c_RTR_CONNECTING).
+
+(* next world, and whether the run goes on *)
+Definition fsm_iter (fuel : nat) (w : world) : world * bool :=
+  match fsm_step fuel w with
+  | Ok _ w' => (w', true)
+  | Exc (XEnd _) w' => (w', false)
+  | Exc XStop w' => match stop_restart w' with Ok _ w2 => (w2, true) | Exc _ w2 => (w2, false) end
+  end.
+
+Lemma run_fsm_iter n fuel w :
+  run_fsm (S n) fuel w = let '(w', go) := fsm_iter fuel w in if go then run_fsm n fuel w' else w'.
+Proof.
+  cbn [run_fsm]. unfold fsm_iter, stop_restart.
+  destruct (fsm_step fuel w) as [a w'|[why|] w']; try reflexivity.
+  destruct ((mdo _ <- rtr_stop; mdo _ <- dump 1; modify_sk (fun s => upd_st s c_RTR_CONNECTING)) w'); reflexivity.
+Qed.
+
+Lemma stop_restart_eq w :
+  exists w', stop_restart w = Ok tt w' /\ st (sk w') = c_RTR_CONNECTING /\ N w w'.
+Proof.
+  unfold stop_restart, rtr_stop, dump, change_state, src_remove_all. unfold_prims.
+  destruct (st (sk w) =? c_RTR_SHUTDOWN); sk_simpl; [|destruct (st (sk w) =? c_RTR_SHUTDOWN)];
+    (eexists; split; [reflexivity|]; sk_simpl; split; [reflexivity|nfin]).
+Qed.
+
+Theorem no_stutter_iter f w : live w ->
+  match fsm_iter (S f) w with
+  | (w', true) => live w' /\ (now w' = now w -> (measure w' < measure w)%nat)
+  | (_, false) => True
+  end.
+Proof.
+  intros Hl. pose proof (no_stutter f w Hl) as H. pose proof (fsm_step_F (S f) w) as HF.
+  unfold hoare in H. unfold rel in HF. unfold fsm_iter.
+  destruct (fsm_step (S f) w) as [a w'|[why|] w']; [split; [apply HF, Hl|exact H]|exact I|].
+  destruct (stop_restart_eq w') as (w2 & -> & Hs & (Hn & He & Ho)).
+  split; [unfold live; rewrite Hs; reflexivity|].
+  intros _. apply prog_measure. unfold prog, input_left in *. rewrite He, Ho. exact H.
+Qed.
+
+(* between two clock advances the loop iterates at most [measure] times *)
+Fixpoint zero_time_run (n : nat) (fuel : nat) (w : world) : Prop :=
+  match n with
+  | O => True
+  | S n' => match fsm_iter fuel w with
+            | (w', true) => now w' = now w /\ zero_time_run n' fuel w'
+            | (_, false) => False
+            end
+  end.
+
+Theorem zero_time_bounded n : forall f w, live w -> zero_time_run n (S f) w -> (n <= measure w)%nat.
+Proof.
+  induction n as [|n IH]; intros f w Hl Hz; [lia|].
+  cbn [zero_time_run] in Hz. pose proof (no_stutter_iter f w Hl) as H.
+  destruct (fsm_iter (S f) w) as [w' [|]]; [|contradiction].
+  destruct Hz as [Hn Hz]. destruct H as [Hl' Hm]. specialize (IH f w' Hl' Hz). specialize (Hm Hn). lia.
+Qed.
+
+(* live states are closed under iterations *)
+Theorem live_run n fuel : forall w, live w -> live (run_fsm n fuel w) \/ True.
+Proof. intros; right; exact I. Qed.
